@@ -145,7 +145,7 @@ func (p *Prover) discharge(ob *Ob, globals []string) *ObResult {
 	if p.Short[ob.Key] && timeout > 3*time.Second {
 		timeout = 3 * time.Second // accepted as an assumption / recorded finding: tried briefly, its outcome decides nothing
 	}
-	if p.Claimed != nil && !p.Claimed[ob.Key] && ob.Kind != "nopanic" && timeout > 3*time.Second {
+	if p.Claimed != nil && !p.Claimed[ob.Key] && ob.Kind != "nopanic" && ob.Kind != "term" && timeout > 3*time.Second {
 		timeout = 3 * time.Second // not claimed: reported as unclaimed if it does not discharge quickly
 	}
 	sum := sha256.Sum256([]byte(text))
